@@ -167,7 +167,7 @@ def main():
             "evidence_file": f"/verif/evidence/{pid}.json",
             "replay_cmd_template": f"./check {pid} --replay {{path}}",
             "engine": "tlc+harness",
-            "level_claimed": {"category": "model_checking", "text": text, "design_ref": "DESIGN.md section " + ref},
+            "level_claimed": {"category": "model_checking", "text": text, "design_ref": "DESIGN.md section 6 " + pid},
             "level_note": TRUST,
             "technique": "TLA+ specification checked with TLC; TLC behaviours replayed into the real library (" + tech + ")"
                          + ("; recorded executions validated by TLC against Trace_*.tla" if pid in TRACED else ""),
